@@ -154,6 +154,6 @@ Definition check3 (k : case3) : bool :=
   && beq (m_lin k) (is_linear e).
 
 (* ---- NumericalGradient(f, method, step) on 1-d tensor spaces ---- *)
-Record case4 := mkCase4 { g_w : list Q; g_e : fx g_w; g_m : ngmethod; g_h : Q; g_x : list Q; g_out : list Q }.
+Record case4 := mkCase4 { g_riesz : bool; g_w : list Q; g_e : fx g_w; g_m : ngmethod; g_h : Q; g_x : list Q; g_out : list Q }.
 Definition check4 (k : case4) : bool :=
-  Qsclose atol rtol (g_out k) (numgrad Qsqrt (g_w k) (g_e k) (g_m k) (g_h k) (g_x k)).
+  Qsclose atol rtol (g_out k) (numgrad_v Qsqrt (g_riesz k) (g_w k) (g_e k) (g_m k) (g_h k) (g_x k)).
